@@ -13,11 +13,11 @@ from xml.sax.saxutils import escape as _sax_escape
 from harness.common import exc_token, tok_str
 from vk.core import Case, Ctx
 
-GEN_MODULES: List[str] = ["C06Types"]
+GEN_MODULES: List[str] = ["C06Types", "C08Types"]
 MANIFEST = {
     "design_ref": "§5 C06",
-    "text": ("Lean theorem c06_model_ok: for every declared action (any number of arguments of any type row that is "
-             "coercible, ranges, allowed lists), every caller assignment and both strictness modes, the model of "
+    "text": ("Lean theorem c06_model_ok: for every declared action (any number of arguments of any of the 26 generated type rows "
+             "- C08's data-type model and round-trip theorem -, ranges, allowed lists), every caller assignment and both strictness modes, the model of "
              "create_request/validate_arguments/_format_request_args satisfies the judge C06.ok: an accepted assignment yields "
              "exactly one POST to urljoin(device URL, controlURL) with SOAPAction \"type#action\", text/xml utf-8, Host = "
              "netloc, and a body that reads back (readEnvelope, proved inverse of the renderer: escape/xmlDecodeText round "
@@ -30,8 +30,8 @@ MANIFEST = {
              "long-lived device/service/action object (c06_history_ok: the model's request construction is a pure function "
              "of current description URL, control URL, action and assignment)."),
     "note": ("Trusted: Lean kernel + standard axioms; XML text<->tree of the real parser is sampled, not proved (readEnvelope "
-             "recognises only the shape the client emits); float() / parse_date_time are oracles (hypotheses in the theorems, "
-             "tables from the real primitives at run time); urljoin/netloc modelled on a restricted URL grammar; values at "
+             "recognises only the shape the client emits); values, coercers and schema are C08's model over the generated 26-row table; "
+             "floats abstract (repr/float()/<= tables from the real primitives at run time, one assumption float(repr(x))==x); urljoin/netloc modelled on a restricted URL grammar; values at "
              "second precision; action/argument names inside the XML-name domain (xmlNameOk); service types arbitrary."),
     "technique": "Lean 4 proof (model satisfies the judge for all inputs; renderer/recogniser inverse) + generated tables + model/implementation correspondence",
 }
@@ -48,7 +48,8 @@ ASSUMPTIONS = [
     "string values contain only characters legal in XML 1.0",
     "URLs follow scheme://netloc/path?query without dot segments or empty interior segments",
     "non-ASCII decimal digits (accepted by Python int()) are outside the model",
-    "float(repr(x)) == x and parse_date_time(v.isoformat()) == v are hypotheses of the decode theorem (sampled here; C08's subject)",
+    "float(repr(x)) == x (C08's single float assumption RoundTrips; floats are otherwise abstract: repr/float()/<= tables per case)",
+    "an object of no modelled class (list, bytes, dict, ...) is represented as None: like None it fails every isinstance test",
 ]
 TRUSTED = [
     "C06: real XML parser (defusedxml/expat) reading of the sent body is compared with the Lean recogniser on the sampled calls only",
@@ -520,6 +521,23 @@ def rand_arg_decl(rng, name: str, direction: str) -> Dict[str, Any]:
             a["range"] = {"min": rng.choice(["0", "-2.5"])}
         else:
             a["range"] = {"max": rng.choice(["10", "0.5"])}
+    if k == "dt" and rng.random() < 0.25:
+        # bounds / lists written in wire form (also with the spellings parse_date_time accepts)
+        def wire(aware):
+            if t == "date":
+                return rand_date(rng).isoformat()
+            if t.startswith("dateTime"):
+                return rand_datetime(rng, aware=aware).isoformat()
+            return rand_time(rng, aware=aware).isoformat()
+        aware = True if t.endswith(".tz") else (rng.random() < 0.5 if t != "date" else False)
+        if rng.random() < 0.6:
+            lo, hi = sorted([wire(aware), wire(aware)])
+            c = rng.random()
+            a["range"] = {"min": lo, "max": hi} if c < 0.6 else ({"min": lo} if c < 0.8 else {"max": hi})
+        else:
+            a["allowed"] = [wire(aware) for _ in range(rng.choice([1, 2, 3]))]
+    if k == "str" and rng.random() < 0.08:
+        a["range"] = rng.choice([{"min": "a", "max": "m"}, {"min": "B"}, {"max": "zz"}])
     if k == "str" and rng.random() < 0.4:
         a["allowed"] = rng.choice([["Master", "LF", "RF"], ["a", "a b", " c"], ["<x>", "&"], [], ["PLAY", "Play"], ["x\ry"]])
     elif k == "int" and rng.random() < 0.15:
@@ -581,6 +599,9 @@ def in_domain(a: Dict[str, Any], rng):
     try:
         if al:
             t = rng.choice(al)
+            if k == "dt":
+                from async_upnp_client.utils import parse_date_time
+                return parse_date_time(t)
             return int(t) if k == "int" else (float(t) if k == "float" else t)
         lo = r.get("min") or None
         hi = r.get("max") or None
@@ -596,6 +617,9 @@ def in_domain(a: Dict[str, Any], rng):
             if math.isinf(hi_f):
                 hi_f = lo_f + 1e6
             return rng.uniform(lo_f, hi_f)
+        if k == "dt":
+            from async_upnp_client.utils import parse_date_time
+            return parse_date_time(rng.choice([x for x in (lo, hi) if x is not None]))
     except ValueError:
         return None
     return None
